@@ -113,13 +113,23 @@ func genCase(t *rapid.T, withInvalid bool) *Case {
 			}
 			return op
 		case "bad":
-			return Op{K: k, Opts: genOptions(t), Bad: rapid.SampledFrom([]string{"nodefault", "empty-existing", "empty-new", "nil-options", "nil-pointer", "dialfail", "dialfail"}).Draw(t, "bad"), Nth: rapid.IntRange(0, 3).Draw(t, "nth")}
+			return Op{K: k, Opts: genOptions(t), Bad: rapid.SampledFrom([]string{"nodefault", "empty-existing", "empty-new", "nil-options", "nil-pointer", "dialfail", "dialfail"}).Draw(t, "bad"), Nth: rapid.IntRange(0, 3).Draw(t, "nth"),
+				Strm: rapid.Bool().Draw(t, "retry")}
 		case "rpc":
 			return Op{K: k, Ctx: rapid.IntRange(0, 4).Draw(t, "ctx"), Strm: rapid.Bool().Draw(t, "stream")}
 		default:
 			return Op{K: k, E: rapid.IntRange(0, 3).Draw(t, "e")}
 		}
 	}), 1, 8).Draw(t, "ops")
+	// a configuration watcher retries: the options of an update that failed in a dial are offered again, unchanged
+	var ops []Op
+	for _, op := range c.Ops {
+		ops = append(ops, op)
+		if op.K == "bad" && op.Bad == "dialfail" && op.Strm {
+			ops = append(ops, Op{K: "update", Opts: op.Opts}, Op{K: "rpc", Ctx: 0}, Op{K: "rpc", Ctx: 2})
+		}
+	}
+	c.Ops = ops
 	return c
 }
 
